@@ -164,7 +164,7 @@ def dagW (fx : Bool) : SBox → SBox
 
 /-- Which code the driver and the theorems about `dag` follow: `false` while findings F42a-c are
     open in /repo; set to `true` together with the repair (no proof changes needed). -/
-def f42Fixed : Bool := false
+def f42Fixed : Bool := true
 
 def dag (b : SBox) : SBox := b.dagW f42Fixed
 
